@@ -25,9 +25,11 @@ ASSUMPTIONS = [
 ]
 TIMEOUT = {"quick": 1800, "thorough": 5400}
 MIN_COUNTERS = {"quick": {"system_evaluations": 60, "non_square_systems": 10, "dict_weight_systems": 10,
-                          "one_by_one_systems": 4, "nonstatio_systems": 15},
+                          "one_by_one_systems": 4, "nonstatio_systems": 15,
+                          "systems_with_a_heterogeneous_parameter": 12},
                 "thorough": {"system_evaluations": 800, "non_square_systems": 150, "dict_weight_systems": 150,
-                             "one_by_one_systems": 50, "nonstatio_systems": 200}}
+                             "one_by_one_systems": 50, "nonstatio_systems": 200,
+                             "systems_with_a_heterogeneous_parameter": 150}}
 EQ0 = {"theta": 0.8, "phi": 0.3, "kappa": -0.6}
 NAMES = ["u", "p", "species 3", "0", "wolf"]
 ENAMES = ["mass", "momentum", "eq-3", "0", "u"]
@@ -50,7 +52,7 @@ def gen_cases(tier, seed):
         cases.append(dict(kind=kind, d=0 if kind == "ode" else int(rng.integers(1, 3)), E=E, U=U, names=names,
                           eqnames=eqn, per_u=per_u, weights=["scalar", "dict", "default"][int(rng.integers(3))],
                           obs_src=["hand", "multi"][int(rng.integers(2))], B=int(rng.integers(1, 7)),
-                          seed=seed * 100000 + k, cost=2.0, x64=bool(k % 7 != 3)))
+                          seed=seed * 100000 + k, cost=2.0, x64=bool(k % 7 != 3), hetero=bool(k % 4 == 2)))
     # built-in two-equation system (mass conservation + Navier-Stokes) on pointwise and on separable networks
     for k in range(10 if q else 100):
         cases.append(dict(kind="ns_system", net=["pinn", "spinn"][k % 2], weights=["scalar", "dict"][(k // 2) % 2],
@@ -112,6 +114,30 @@ class SystemProblem:
         self.u0 = {n: rng.uniform(-1, 1, self.nets[n].n_out) for n in self.names}
         self.fb = {n: float(rng.uniform(-0.5, 0.5)) for n in self.names}
         self.V = 2.5
+        # heterogeneous parameter: in ONE equation of the system theta is replaced by a function of the point
+        # (and of another equation parameter); the other equations keep the caller's value
+        self.het_eq = self.eqnames[case["seed"] % len(self.eqnames)] if case.get("hetero") else None
+        hr = np.random.default_rng([case.get("seed", 0), 131])
+        self.het = (float(hr.uniform(0.5, 1.5)), hr.uniform(-1, 1, self.D), float(hr.uniform(0.5, 1.5)))
+
+    def het_np(self, z, eq):
+        ha, hb, hc = self.het
+        return ha + float(np.dot(hb, np.asarray(z, float))) + hc * float(np.sum(eq["kappa"]))
+
+    def het_kw(self):
+        """constructor arguments giving the equation its heterogeneous theta (jinns' calling convention per kind)"""
+        import jax.numpy as jnp
+
+        ha, hb, hc = self.het
+        HB = jnp.asarray(hb)
+        core = lambda z, params: ha + HB @ z + hc * jnp.sum(params.eq_params["kappa"])
+        if self.kind == "ode":
+            hj = lambda t, u, params: core(jnp.reshape(t, (1,)), params)
+        elif self.kind == "statio":
+            hj = lambda x, u, params: core(x, params)
+        else:
+            hj = lambda t, x, u, params: core(jnp.concatenate([t, x]), params)
+        return {"eq_params_heterogeneity": {"theta": hj, "phi": None, "kappa": None}}
 
     # ------------------------------------------------------------------ real objects
     def loss(self):
@@ -132,7 +158,7 @@ class SystemProblem:
             for n in self.names:
                 by_nout.setdefault(self.nets[n].n_out, u_dict[n])
                 u_dict[n] = by_nout[self.nets[n].n_out]
-        dyn = {e: self.specs[e].module(kind) for e in self.eqnames}
+        dyn = {e: self.specs[e].module(kind, **(self.het_kw() if e == self.het_eq else {})) for e in self.eqnames}
         name_of = {"dyn": "dyn_loss", "ic": "initial_condition", "boundary": "boundary_loss", "norm": "norm_loss",
                    "obs": "observations"}
         lwkw = {name_of[t]: v for t, v in self.Wspec.items()}
@@ -230,7 +256,9 @@ class SystemProblem:
         out = {}
         dyn = 0.0
         for e in self.eqnames:
-            vals = [float(np.sum(self.specs[e].resid(self.nets, self.pts[i], eq_rows[i]) ** 2)) for i in range(B)]
+            vals = [float(np.sum(self.specs[e].resid(
+                self.nets, self.pts[i], eq_rows[i],
+                theta=self.het_np(self.pts[i], eq_rows[i]) if e == self.het_eq else None) ** 2)) for i in range(B)]
             dyn += self.W["dyn"][e] * float(np.mean(vals))
         out["dyn_loss"] = dyn
         W = self.W
@@ -367,6 +395,8 @@ def run_case(case, rec):
     sp.make_data(B)
     kind, E, U = case["kind"], case["E"], case["U"]
     sysname = "system-%s" % ("ode" if kind == "ode" else "pde")
+    if sp.het_eq is not None:
+        rec.count("systems_with_a_heterogeneous_parameter")
     rec.count("system_evaluations")
     if E != U:
         rec.count("non_square_systems")
@@ -464,7 +494,7 @@ def run_case(case, rec):
                 def equation(self, t, x, u, params):
                     from jinns.parameters import ParamsDict
                     return self.inner.equation(t, x, {n: u}, ParamsDict(nn_params={n: params.nn_params}, eq_params=params.eq_params))
-        dl = One(inner=spec.module(kind))
+        dl = One(inner=spec.module(kind), **(sp.het_kw() if sp.het_eq == e else {}))
         p1 = Params(nn_params=sp.params.nn_params[n], eq_params=sp.params.eq_params)
         u = sp.nets[n].pinn()
         has = lambda p: p in sp.per_u[n]
